@@ -643,9 +643,7 @@ func (c *specCl) wildSituation(rq Req) string {
 }
 
 func (c *specCl) classify(rq Req, exp Expect, ob Observed) string {
-	if strings.HasPrefix(exp.Via, "wildcard host") {
-		return "wildcard-host-mismatch"
-	}
+
 	if exp.Kind == "servers" && ob.Verdict == "backend" {
 		want := map[string]bool{}
 		for _, t := range exp.Servers {
@@ -702,6 +700,9 @@ func (c *specCl) classify(rq Req, exp Expect, ob Observed) string {
 				}
 			}
 		}
+	}
+	if strings.HasPrefix(exp.Via, "wildcard host") {
+		return "wildcard-host-mismatch"
 	}
 	return "route-mismatch"
 }
